@@ -324,6 +324,9 @@ class Schema(dict, metaclass=LogicalMeta):
         self.__parser__.resolve_forward_refs()
         context = self.__parser__.make_context(force_error=True)
         value = field.parse_value(value, context=context)
+        if unprovided(value):
+            # excluded by the error policy of the field / the options (a warning was given): nothing is assigned
+            return
 
         if field.property:
             if callable(setter):
